@@ -101,6 +101,7 @@ class ValueProfile:
             "flt_kinds": self.flt_kinds,
             "eager_full": rng.random() < 0.6,
             "limited": limited,
+            "empty_name_category": self.use_reg and self.prop == "C05" and rng.random() < 0.12,
             "burst": (rng.choice([600, 1200]) if (self.prop == "C07" and world == "W-POSC" and rng.random() < 0.12) else 0),
             "val_sweep": bool(limited) and self.use_interrupt and rng.random() < 0.25,
             "limited_cats": [[l["category"], l["quantity_type"]] for l in limited],
